@@ -1289,6 +1289,17 @@ let () =
       | "fault" :: id :: rest -> let (i, o) = split_arrow rest in fault_tcp := false; do_fault id i o
       | "faulttcp" :: id :: rest -> let (i, o) = split_arrow rest in fault_tcp := true; do_fault id i o; fault_tcp := false
       | "sid" :: id :: rest -> let (i, o) = split_arrow rest in do_sid id i o
+      | "tcpstall" :: id :: rest ->
+        (* a client that stopped reading for a while and then reads on receives whole messages only, each delimited by its
+           length prefix, one per query *)
+        let (i, o) = split_arrow rest in
+        (match i, o with
+         | [k; size], [whole; foreign; leftover] ->
+           let tag = "stall/" ^ size in
+           if whole = k && foreign = "0" && leftover = "0" then verdict "tcpstall" id "ok" tag ""
+           else verdict "tcpstall" id "spec:C05,C01" tag
+               (Printf.sprintf "%s pipelined queries with %s-byte answers, the client pausing its reads: %s whole replies, %s frames that are no reply to any of them, %s bytes after the last whole frame" k size whole foreign leftover)
+         | _ -> verdict "tcpstall" id "diff" "malformed-line" "")
       | "qmut" :: id :: rest ->
         (* who asked (peer address, hardware address) and at which local address are the request's own: they were
            different when the upstream was done with the query than when it was called *)
